@@ -331,7 +331,12 @@ def exec_assembly(r):
 
 
 def _exec_assembly_body(r, vcls, mclss, vrec, mrecs, inputs, wr, s, o, k, cutter, amb):
+    proj_pre = None
     if r.get("warmup"):        # the logged call is the second one on the same objects
+        if not r.get("edit_between"):
+            # the event describes the inputs as the user supplied them - before the first call on these objects (whatever a call
+            # leaves behind on its inputs must not show in the product of the next one)
+            proj_pre = [rec_proj(x) for x in inputs]
         call_assemble(vcls, mclss, vrec, mrecs, r.get("id"), r.get("name"), None, wrappers=wr, ambient=amb)
     if r.get("edit_between"):  # the feature tables of the inputs are edited in place between the two calls
         from Bio.SeqFeature import FeatureLocation as _FL, SeqFeature as _SF
@@ -341,7 +346,7 @@ def _exec_assembly_body(r, vcls, mclss, vrec, mrecs, inputs, wr, s, o, k, cutter
             for (a, b, st) in extra:
                 rec.features.append(_SF(_FL(a, b, strand=st), type="misc_feature", qualifiers={"label": ["added-later"]}))
     before = [snapshot(x) for x in inputs]
-    proj_in = [rec_proj(x) for x in inputs]
+    proj_in = proj_pre or [rec_proj(x) for x in inputs]
     out = call_assemble(vcls, mclss, vrec, mrecs, r.get("id"), r.get("name"), r.get("fault"), prequery=bool(r.get("prequery")), wrappers=wr,
                         dup_wrapper=r.get("dup_wrapper"), ambient=amb)
     if r.get("dup_wrapper") is not None and r["dup_wrapper"] < len(mrecs):
